@@ -58,6 +58,11 @@ theorem AdvKeep.modProc (w : WorkerSt) (q : Pid) (f : Proc → Proc) (hf : ∀ y
     exact AdvKeep.updProc (q := q) (y' := f y) rfl (fun y0 h0 => by rw [hy] at h0; cases h0; exact hf y)
   · exact AdvKeep.refl _
 
+theorem AdvKeep.release (w : WorkerSt) (cur : Pid) : AdvKeep w (w.release cur) := by
+  unfold WorkerSt.release; split
+  · exact AdvKeep.modProc w cur _ (fun y => by unfold Proc.releaseDead; split <;> exact Adv.refl _)
+  · exact AdvKeep.refl w
+
 theorem AdvKeep.wakeSelecting (w : WorkerSt) (q : Pid) : AdvKeep w (w.wakeSelecting q) :=
   AdvKeep.of_procs (by unfold WorkerSt.wakeSelecting; split <;> rfl)
 
@@ -98,7 +103,7 @@ theorem AdvKeep.finish (w : WorkerSt) (cur : Pid) (x : Proc) (ordQ : List Pid) (
   dsimp only
   refine (AdvKeep.updProc (w' := { w with procs := upd w.procs cur (some { x with result := some x.finalRes }) })
     (q := cur) (y' := { x with result := some x.finalRes }) rfl (fun y hy => hx y hy)).trans ?_
-  exact AdvKeep.foldl _ (fun w' a => AdvKeep.notifyResult w' a cur _) _ _
+  exact (AdvKeep.foldl _ (fun w' a => AdvKeep.notifyResult w' a cur _) _ _).trans (AdvKeep.release _ cur)
 
 /-- a time slice: the process advances; a Spawn outcome means: not issued before, issued now, at a
 spawn action for that script -/
@@ -176,7 +181,9 @@ theorem AdvKeep.handleCmd {s : Sys} (i : Wid) (c : Cmd) (hok : ∀ p fn, c ≠ .
     cases hx : (s.wk i).procs t with
     | none => simp only [handleCmdWith, hx, setWk_wk, upd_same]; exact AdvKeep.wakeSelecting _ t
     | some x =>
-      simp only [handleCmdWith, hx, setWk_wk, upd_same]
+      by_cases hd : (Cfg.releaseDead && !x.deliverable) = true
+      · simp only [handleCmdWith, hx, hd, if_true, setWk_wk, upd_same]; exact AdvKeep.wakeSelecting _ t
+      simp only [handleCmdWith, hx, hd, Bool.false_eq_true, if_false, setWk_wk, upd_same]
       exact (AdvKeep.updProc (q := t) (y' := { x with mailbox := x.mailbox ++ [m] })
         (w' := { s.wk i with procs := upd (s.wk i).procs t (some { x with mailbox := x.mailbox ++ [m] }) }) rfl
         (fun y hy => by rw [hx] at hy; cases hy; exact Adv.refl _)).trans (AdvKeep.wakeSelecting _ t)
